@@ -48,6 +48,16 @@ fn templates() -> Vec<Tpl> {
     t("map-index", 2, true, Box::new(|h| E::Index(b(E::Map(vec![(li(1), h[0].clone())])), b(h[1].clone()))));
     t("select", 1, true, Box::new(|h| E::Select(b(E::Map(vec![(E::Lit(MV::s("a")), h[0].clone())])), "a".into())));
     t("has", 1, false, Box::new(|h| E::Has(b(E::Map(vec![(E::Lit(MV::s("a")), h[0].clone())])), "a".into())));
+    // multi-field paths: the root of the path is evaluated once however long the path is
+    t("has2", 1, false, Box::new(|h| E::Has(b(E::Select(b(E::Map(vec![(E::Lit(MV::s("a")), E::Map(vec![(E::Lit(MV::s("b")), h[0].clone())]))])), "a".into())), "b".into())));
+    t("has2-absent", 1, false, Box::new(|h| E::Has(b(E::Select(b(E::Map(vec![(E::Lit(MV::s("a")), E::Map(vec![(E::Lit(MV::s("b")), h[0].clone())]))])), "a".into())), "c".into())));
+    t("has3", 2, false, Box::new(|h| {
+        let inner = E::Map(vec![(E::Lit(MV::s("c")), h[0].clone())]);
+        let mid = E::Map(vec![(E::Lit(MV::s("b")), inner), (E::Lit(MV::s("d")), h[1].clone())]);
+        let root = E::Map(vec![(E::Lit(MV::s("a")), mid)]);
+        E::Has(b(E::Select(b(E::Select(b(root), "a".into())), "b".into())), "c".into())
+    }));
+    t("select2", 1, true, Box::new(|h| E::Select(b(E::Select(b(E::Map(vec![(E::Lit(MV::s("a")), E::Map(vec![(E::Lit(MV::s("b")), h[0].clone())]))])), "a".into())), "b".into())));
     // built-ins, global style
     t("size()", 2, true, Box::new(|h| call("size", vec![E::List(h)])));
     t("max2", 2, true, Box::new(|h| call("max", h)));
